@@ -143,7 +143,9 @@ class SyncedList(SyncedCollection, MutableSequence):
                 # inserting at the beginning will require reconverting all
                 # elements of the data.
                 for i in range(min(len(self), len(data))):
-                    if data[i] == self._data[i]:
+                    # Values such as 1, 1.0 and True compare equal but are
+                    # different JSON values, so equality alone is not enough.
+                    if type(data[i]) is type(self._data[i]) and data[i] == self._data[i]:
                         continue
                     # A nested collection's _update treats None as "no
                     # change", so a None value must replace the collection.
